@@ -244,6 +244,15 @@ var writerEdgeSizes = func() []int {
 }()
 
 func genTcp(o *Out, r *Rng, n int, tier string) {
+	// every peer behaviour in the handshake once, followed by traffic (independent of the seed)
+	for _, pm := range pongModes {
+		o.emit("C05", "SEQ", "CFG("+hx([]byte("secret"))+";f;t;"+hx([]byte("client.example"))+")", "CON(ok;f)", "HS(std;"+pm+";-)",
+			fmt.Sprintf("RAW(%s;-)", hx(r.Bytes(4))), "TP", fmt.Sprintf("SND(%s;match;-)", pfmOfSize(r, 20)))
+	}
+	for _, hm := range heloModes {
+		o.emit("C05", "SEQ", "CFG("+hx([]byte("secret"))+";f;t;"+hx([]byte("client.example"))+")", "CON(ok;f)", "HS("+hm+";honest;-)",
+			fmt.Sprintf("RAW(%s;-)", hx(r.Bytes(4))), "TP")
+	}
 	for _, sz := range writerEdgeSizes {
 		o.emit("C09", "SEQ", "CFG(-;f;t;"+hx([]byte("h"))+")", "CON(ok;f)", fmt.Sprintf("SND(%s;match;-)", pfmOfSize(r, sz)), fmt.Sprintf("RAW(%s;-)", hx(r.Bytes(3))))
 	}
